@@ -87,6 +87,9 @@ def gen(rng, tier):
         for b in viol_out.values():
             cases.append(fmt(a, b))
             cases.append(fmt(pad_to(a, b, 1000001), b))
+    # many individually valid outputs whose int64 running total would wrap if it were not range-checked per output
+    for k, last in ((8784, 344073709552616), (8784, 344073709551616), (4392, MAXM), (4393, 1)):
+        cases.append(fmt(ok_in, [(MAXM, 0)] * k + [(last, 0)]))
     # random structured
     nrand = 1500 if tier == "quick" else 60000
     for _ in range(nrand):
